@@ -79,6 +79,18 @@ class Model:
         if case["classifier"]:
             self.clf = learn.MaxRateClassifier(tuple(lc["neurs"][self.main]["shape"]), case["classifier"]["classes"],
                                                decay=case["classifier"]["decay"])
+            if variant and case.get("clf_deepcopy"):
+                # the target classifier is "another instance of the same configuration" obtained by copy.deepcopy
+                # of a classifier that has already seen other data (the prototype stays alive)
+                import copy
+
+                rng = np.random.Generator(np.random.PCG64(case["sseed"] + 4242))
+                shp = tuple(lc["neurs"][self.main]["shape"])
+                self._proto = self.clf
+                for _ in range(2):
+                    self._proto(torch.tensor(rng.random(size=(lc["batch"],) + shp), dtype=torch.float32),
+                                torch.tensor(rng.integers(0, case["classifier"]["classes"], size=(lc["batch"],)), dtype=torch.int64))
+                self.clf = copy.deepcopy(self._proto)
             self.mods["classifier"] = self.clf
 
     def step(self, xs, t, labels, reward):
@@ -325,6 +337,7 @@ def case_strategy(draw, tier="quick"):
         "prerun": draw(st.sampled_from([1, 1, 2, 5])), "trainers": trainers,
         "container": draw(st.booleans()),
         "twins": draw(st.integers(0, 3)) == 0,
+        "clf_deepcopy": draw(st.booleans()),
         "target_trainer_eval_at_load": draw(st.booleans()),
         "prerun_tail_eval": draw(st.booleans()),
         "switches": draw(st.lists(st.tuples(st.integers(2, T - 1), st.sampled_from(["eval", "eval", "train"])).map(list), max_size=2,
